@@ -437,3 +437,60 @@ def populate_arg_sets():
                     cp._scenario = {"edges": list(combo), "colors": colors, "use_mst": use_mst, "mst_fails": fails}
                     out.append({"self": cp})
     return out
+
+
+# =================================================================================================
+# wire_router.collect_circuit_edges + SignalGraph.iter_source_sink_pairs (C12 frame: the wire plan starts from exactly the signal
+# graph): one circuit edge per (signal id, source entity, sink entity) triple of the graph — no pair lost, none invented, a signal
+# with several sources paired with each of its sinks — carrying the signal's RESOLVED game name (its id when unresolved).
+# Evaluated on the REAL functions with real SignalGraph objects over an enumerated box: bounded.
+# =================================================================================================
+CEQ2 = "dsl_compiler/src/layout/wire_router.py::collect_circuit_edges"
+
+
+def _collect_post(a, res):
+    sc = a.signal_graph._scenario
+    want = set()
+    for sig, (sources, sinks) in sc["signals"].items():
+        name = sc["resolved"].get(sig, sig)
+        for t in sinks:   # a signal nobody produces (an inlined constant) has no wire: no edge
+            for s in sources:
+                want.add((sig, name, s, t))
+    got = [(e.logical_signal_id, e.resolved_signal_name, e.source_entity_id, e.sink_entity_id) for e in res]
+    return set(got) == want and len(got) == len(want)
+
+
+collect_edges = Contract(qualname=CEQ2, params={"signal_graph": ty.TOpaque("graph"), "signal_usage": ty.TOpaque("usage"), "entities": ty.TOpaque("entities")},
+                         ensures=[("exactly one edge per (signal, source, sink) triple of the graph, under the signal's resolved name", _collect_post)],
+                         verify=False, properties=("C12", "C07"), note="evaluated on the real function over an enumerated box (bounded stand-in)")
+CONTRACTS.append(collect_edges)
+
+
+def collect_edges_arg_sets():
+    from dsl_compiler.src.layout.signal_graph import SignalGraph
+
+    class _Usage:
+        def __init__(self, name):
+            self.resolved_signal_name = name
+
+    class _Placement:
+        def __init__(self, t):
+            self.entity_type, self.role = t, "x"
+
+    out = []
+    shapes = [([], []), (["A"], []), ([], ["C"]), (["A"], ["C"]), (["A"], ["C", "D"]), (["A", "B"], ["C"]), (["A", "B"], ["C", "D"]), (["A"], ["A"])]
+    for s1, s2 in itertools.product(shapes, repeat=2):
+        for resolved in ({}, {"sig1": "signal-X"}, {"sig1": "signal-X", "sig2": "signal-X"}, {"sig2": None}):
+            g = SignalGraph()
+            signals = {}
+            for sig, (sources, sinks) in (("sig1", s1), ("sig2", s2)):
+                for s in sources:
+                    g.set_source(sig, s)
+                for t in sinks:
+                    g.add_sink(sig, t)
+                if sources or sinks:
+                    signals[sig] = (list(sources), list(sinks))
+            usage = {k: _Usage(v) for k, v in resolved.items()}
+            g._scenario = {"signals": signals, "resolved": {k: v for k, v in resolved.items() if v}}
+            out.append({"signal_graph": g, "signal_usage": usage, "entities": {x: _Placement("arithmetic-combinator") for x in "ABCD"}})
+    return out
